@@ -255,6 +255,10 @@ func corrC06(outDir string, seed uint64, tier string, replay string) *report {
 				judge(h+",", "trailing")
 				judge("$x$"+h, "splice")
 				judge(h+"$"+h, "splice")
+				// surplus material that ends in a group delimiter (a pending group must not be dropped at the end of input)
+				judge(h+"$garbage,", "splice")
+				judge(h+"$a=1,b=2,", "splice")
+				judge(h+"$$", "splice")
 			}
 			// all short strings (the scheme must reject them all)
 			allStrings("$,_=a1", 3, func(t string) { judge(t, "short") })
